@@ -41,6 +41,21 @@ def generic_apex(rng, V):
     return c + ext * np.array([rng.integers(3, 9) + 1 / 3.0, rng.integers(3, 9) + 1 / 7.0, rng.integers(3, 9) + 1 / 11.0]) * rng.choice([-1, 1], 3)
 
 
+def collinear_boundary(P):
+    """True when three vertices of the (dyadic) polygon lie on one line without being three consecutive vertices (exact test)."""
+    from fractions import Fraction
+    Q = [(Fraction(float(x)), Fraction(float(y))) for x, y in P]
+    n = len(Q)
+    for i in range(n):
+        for j in range(i + 1, n):
+            for k in range(j + 1, n):
+                if (j - i == 1 and k - j == 1) or (i == 0 and j == n - 2 and k == n - 1) or (i == 0 and j == 1 and k == n - 1):
+                    continue
+                if (Q[j][0] - Q[i][0]) * (Q[k][1] - Q[i][1]) == (Q[j][1] - Q[i][1]) * (Q[k][0] - Q[i][0]):
+                    return True
+    return False
+
+
 def run(chk):
     import coxeter
 
@@ -114,6 +129,10 @@ def run(chk):
             big = C.excname(lambda: coxeter.shapes.Polyhedron(Vp * 2.0 ** 24, [np.array(f) for f in F]).is_inside(Vp.mean(0) * 2.0 ** 24))[0]
             if big == "ok" and chk.is_known("polytri-absolute-thresholds"):
                 chk.count("skipped:triangulation-raised(known polytri thresholds, judged in C02/C09)")
+            elif tl_own is not None and collinear_boundary(info["poly"]) and chk.is_known("polytri-collinear-boundary"):
+                # recorded finding polytri-collinear-boundary: caps with three or more non-consecutive boundary vertices on one line
+                chk.known_finding("polytri-collinear-boundary", "Polyhedron.is_inside raises ValueError('Triangulation failed') for a prism whose non-convex cap has non-consecutive collinear boundary vertices (vendored ear clipping, depends on the face's starting vertex)")
+                chk.count("known:polytri-collinear-boundary")
             else:
                 chk.violation("is_inside-raised", dict(kind=kind, vertices=Vp.tolist(), faces=[list(map(int, f)) for f in F], error="triangulation of a valid solid refused (at any scale)"))
             continue
@@ -135,6 +154,38 @@ def run(chk):
         cases.append(C.encode_case("winding3", sc=C.flat(o) + C.flat(pts), qs=C.flat(Vp), idx=tl))
         cases.append(C.encode_case("dist2_mesh", sc=C.flat(pts), qs=C.flat(Vp), idx=tl))
         meta.append(dict(cls="mesh", kind=kind, V=Vp, F=F, tl=tl, pts=pts, got=got, got_r=got_r, i0=i0, o=o))
+
+    # ---- a prism over a non-convex polygon without collinearities, its caps given as single faces in EVERY cyclic labelling ----
+    # (which vertex a face's listing starts from is a labelling: the solid, and membership in it, do not depend on it)
+    for P0 in (np.array([[0.0, 0.0], [4.0, 0.5], [5.0, 3.0], [2.5, 1.75], [1.0, 4.0], [-0.5, 2.0]]),
+               np.array([[0.0, 0.0], [3.0, 0.25], [3.25, 3.0], [2.0, 3.5], [1.75, 1.0], [0.5, 1.25], [0.25, 3.75], [-1.0, 3.5]])):
+        n0, h0, off0 = len(P0), 1.5, np.array([3.25, -2.5, 5.125])
+        V0 = np.vstack([np.c_[P0, np.zeros(n0)], np.c_[P0, np.full(n0, h0)]]) + off0
+
+        def in_poly(x, y):
+            c_ = False
+            for i_ in range(n0):
+                (x1, y1), (x2, y2) = P0[i_], P0[(i_ + 1) % n0]
+                if (y1 > y) != (y2 > y) and x < x1 + (y - y1) * (x2 - x1) / (y2 - y1):
+                    c_ = not c_
+            return c_
+        q0 = np.array([[x, y, z] for x in np.linspace(-0.9, 4.9, 9) + 0.013 for y in np.linspace(0.1, 3.9, 7) + 0.007 for z in (-0.4, 0.6, 1.9)])
+        want0 = np.array([in_poly(x, y) and 0 < z < h0 for x, y, z in q0])
+        sides0 = [[i_, (i_ + 1) % n0, (i_ + 1) % n0 + n0, i_ + n0] for i_ in range(n0)]
+        bot0, top0 = list(range(n0))[::-1], [i_ + n0 for i_ in range(n0)]
+        for k1 in range(n0):
+            for k2 in ((0, k1) if k1 else range(n0)):
+                F0 = [bot0[k1:] + bot0[:k1], top0[k2:] + top0[:k2]] + sides0
+                st0, got0 = C.excname(lambda: np.asarray(coxeter.shapes.Polyhedron(V0, [np.array(f) for f in F0]).is_inside(q0 + off0), bool))
+                chk.count("prism-cap-labellings")
+                if st0 != "ok" or not np.array_equal(got0, want0):
+                    chk.violation("is_inside-depends-on-face-labelling", dict(kind="prism/polygonal-caps", vertices=V0.tolist(), faces=F0, outcome=st0,
+                                                                              wrong=None if st0 != "ok" else int(np.sum(got0 != want0)),
+                                                                              what="caps listed from vertices %d / %d" % (k1, k2)))
+                    break
+            else:
+                continue
+            break
 
     # ---- spheres / ellipsoids ----
     for _ in range(ncurv):
